@@ -17,4 +17,15 @@ let check_alloc (fields : sexp list) : verdict * string option =
     (OracleFail (Printf.sprintf "one message caused %d bytes to be allocated, bound for limit %d is %d" (i "delta") (i "limit") (i "bound")), None)
   else (Ok_, None)
 
+(* C10: a body streamed in full (up to 4 GiB): the message types the server sent behind it *)
+let check_streamed (fields : sexp list) : verdict * string option =
+  let b k = atom (field1 k fields) = "1" in
+  let want = atom (field1 "want" fields) and got = atom (field1 "got" fields) in
+  if b "panic" then (OracleFail "the server panicked", None)
+  else if b "hang" then (OracleFail "the connection did not end", None)
+  else if want <> got then
+    (OracleFail (Printf.sprintf "a message of %s body bytes under limit %s: the replies behind it are %s (hex), expected %s = E Z | Z | T D C Z: the body was not skipped in full and answered with one non-fatal error"
+                   (atom (field1 "size" fields)) (atom (field1 "limit" fields)) got want), None)
+  else (Ok_, None)
+
 let nontrivial_other (fields : sexp list) : string option = Some (show_sexp (L fields))
